@@ -66,6 +66,14 @@ def run(chk, repo):
                       "the operator lowering (R01.2-R01.9) describe "
                       "Binary.calculate / Unary.calculate; an operator "
                       "class with a lowering of its own is outside them")
+    # "each operand taking the value its own size defines": a map variable
+    # has the bytes of its own format to itself (shared with C08)
+    from . import c08
+    chk.doc("R08.2", "a map variable's slot has the size of its access "
+                     "(shared with C08)")
+    chk.doc("R08.3", "one slot per visible variable (shared with C08)")
+    c08.layout(chk, repo)
+    c08.dedup(chk, repo)
 
 
 # ------------------------------------------------------------------ R01.1
@@ -895,6 +903,39 @@ def r7_constant(chk, repo, d):
                "small_constant", cc.node), "; ".join(fails[:4]) or
            "11 boundary values: a 32-bit immediate is sign-extended by "
            "64-bit instructions, so 2**31 must not be one")
+    # the constant as constructed: its bits are the given value's, and it
+    # counts as signed exactly when the given value is negative (that picks
+    # ARSH / the signed comparisons for every expression it is part of)
+    fails = []
+    nvals = 0
+    for v in (0, 1, -1, 255, -256, (1 << 31) - 1, 1 << 31, -(1 << 31),
+              (1 << 32) - 1, 1 << 32, (1 << 63) - 1, 1 << 63,
+              (1 << 63) + 12345, (1 << 64) - 1, 0xf000000000000000,
+              -(1 << 63), 0.5, -0.5, 3.25, -1234.5):
+        nvals += 1
+        try:
+            c = ev.construct(cc, [d.ebpf, v], {})
+            sg = bool(d.flag(c, "signed"))
+            val = ev.getattr(c, "value")
+            fx = bool(d.flag(c, "fixed"))
+        except (Raised, Unknown, AnalysisError) as e:
+            fails.append(f"{v!r}: {e}")
+            continue
+        want = v if isinstance(v, int) else round(v * d.base)
+        if sg != (v < 0):
+            fails.append(f"Constant({v:#x}).signed is {sg}" if isinstance(
+                v, int) else f"Constant({v}).signed is {sg}")
+        elif not isinstance(val, int) or (val - want) % (1 << 64) or \
+                fx != isinstance(v, float):
+            fails.append(f"Constant({v!r}).value is {val!r}, fixed={fx}")
+    chk.ob("R01.7", E + "Constant.__init__", f"a constant carries the bits "
+           f"of the value given and is signed exactly when that is negative "
+           f"({nvals} values over the 64-bit range and decimals, constructed "
+           f"by abstract execution)", not fails,
+           cc.methods.get("__init__", cc.node), "; ".join(fails[:3]) + (
+               ": an unsigned constant taken for signed turns >> into an "
+               "arithmetic shift and comparisons into signed ones" if fails
+               else "") or "value = index(value), signed = value < 0")
     cal = repo.func(E + "Constant.calculate")
     chk.analysed(E + "Constant.calculate")
     ifs = [s for s in walk_no_nested(cal) if isinstance(s, ast.If)
@@ -984,6 +1025,7 @@ def store_immediate(chk, repo, d):
                         "fmt_to_opcode(self.fmt) + Opcode.ST"):
                     return ("imm", c)
     attrs = set()
+    guards = []
     fmt_dependent = False
     n = 0
     calls = {}
@@ -1004,6 +1046,7 @@ def store_immediate(chk, repo, d):
                 break
         need(guard is not None, f"{sym}: the immediate store is not "
                                 f"conditional")
+        guards.append(guard)
         for x in ast.walk(guard):
             if isinstance(x, ast.Attribute) and isinstance(
                     x.value, ast.Name) and x.value.id == "value":
@@ -1012,11 +1055,36 @@ def store_immediate(chk, repo, d):
                 fmt_dependent = True
     chk.floor("R01.7", "paths of Memory._set that store an immediate", n, 1)
     attrs -= {"fixed", "value"}
-    need(attrs or fmt_dependent, f"{sym}: the predicate selecting the "
-                                 f"immediate store was not found")
     if fmt_dependent:
         return
     fails = []
+    if not attrs:
+        # the selection is spelt out in the test: the whole test is folded
+        # on constants at the boundaries (the store opcode being STX)
+        mem = d.ev.enum_members(repo.cls(E + "Opcode"))
+        for g in guards:
+            for v in (-(1 << 31) - 1, -(1 << 31), -1, 0, (1 << 31) - 1,
+                      1 << 31, 0xdeadbeef, (1 << 32) - 1, 1 << 32):
+                try:
+                    c_ = d.ev.construct(cc, [d.ebpf, v], {})
+                    sel = bool(Evaluator(repo, f._module, repo.cls(
+                        E + "Memory")).eval(g, {
+                            "value": c_, "opcode": mem["STX"],
+                            "self": Obj(repo.cls(E + "Memory"),
+                                        {"fmt": "Q", "ebpf": d.ebpf})}))
+                except (Unknown, Raised) as e:
+                    raise AnalysisError(
+                        f"{sym}: the predicate selecting the immediate "
+                        f"store (`{unparse(g)[:60]}`) cannot be folded: {e}")
+                if sel and not -(1 << 31) <= v < (1 << 31):
+                    fails.append(f"`{unparse(g)[:50]}` selects the "
+                                 f"immediate store for {v:#x}")
+        chk.ob("R01.7", sym, "the immediate store is taken only for "
+               "constants in the signed 32-bit range", not fails, f,
+               "; ".join(fails[:3]) + ": ST DW sign-extends its immediate, "
+               "the upper half of an 8-byte variable becomes ff.." if fails
+               else "the test folded over 9 boundary values")
+        return
     for a in sorted(attrs):
         for v in (-(1 << 31) - 1, -(1 << 31), -1, 0, (1 << 31) - 1, 1 << 31,
                   0xdeadbeef, (1 << 32) - 1, 1 << 32):
@@ -1289,3 +1357,7 @@ def match_assign_none(s, name):
 
 # added rules (appended to the explanation the evidence file carries)
 EXPLANATION += (" " + 'Added during the build (DESIGN.md 4.31, second table): EBPF.assemble by abstract execution on four instruction lists against the ISA layout; (R01.11) no subclass of Binary / Unary has a calculate() of its own.')
+EXPLANATION += (
+    " Shared with C08 (R08.2/R08.3): the slot ArrayMap.collect reserves for "
+    "a map variable has the size of the descriptor attribute lookup finds, "
+    "so a load or store of one operand never covers its neighbour.")
